@@ -5,7 +5,7 @@ ids=${@:-C01 C02 C04 C05 C08 C09 C10 C11 C12 C13 C14 C15 C16 C17 C19 C20}
 mkdir -p /verif/.work/logs
 for id in $ids; do
   s=$(date +%s)
-  /verif/check $id $tier > /verif/.work/logs/${id}_$tier.log 2>&1
+  timeout 7200 /verif/check $id $tier > /verif/.work/logs/${id}_$tier.log 2>&1
   rc=$?
   e=$(date +%s)
   echo "$id $tier rc=$rc wall=$((e-s))s viol=$(grep -c '^VIOLATION' /verif/.work/logs/${id}_$tier.log) known=$(grep -c '^KNOWN-FINDING' /verif/.work/logs/${id}_$tier.log)"
